@@ -107,6 +107,8 @@ def gen_cases(pid, rng, tier, kinds):
             cases.append(case)
         if pid in ("C08", "C10", "C11", "C03", "C09"):
             cases += [gen.gen_skip_case(rng, kind, 8000 + i) for i in range(60 if tier == "quick" else 600)]
+        if pid in ("C07", "C03", "C05", "C01"):
+            cases += [gen.gen_reinsert_case(rng, kind, 8500 + i) for i in range(60 if tier == "quick" else 600)]
         extra = 4 if tier == "quick" else 30
         if pid in ("C03", "C05", "C06", "C08", "C10", "C11", "C01", "C16"):
             nme = extra // 2 if pid not in ("C05", "C06") else extra * 2
